@@ -75,6 +75,7 @@ pub fn check(v: &View, vd: &mut Verdict) {
                         }
                     }
                 }
+                went_silent(v, vd, *id, t);
                 // exactly k deliveries after k periods on an otherwise idle actor
                 let idle = v.invs.iter().filter(|i| i.actor == a).all(|i| matches!(i.msg, MsgRef::Tick { .. }) && i.enter_time == i.exit_time && i.exit.is_some())
                     && v.alive_until(a) >= teardown
@@ -210,6 +211,7 @@ pub fn check(v: &View, vd: &mut Verdict) {
             }
         }
     }
+    timer_died_early(v, vd, "C10");
     if multi_fire {
         vd.class("timer_fired_twice");
     }
@@ -217,4 +219,113 @@ pub fn check(v: &View, vd: &mut Verdict) {
         vd.class("terminated_with_timer_pending");
     }
     vd.nontrivial = multi_fire && pending_at_end;
+}
+
+/// Timers die *with* the actor (or with the incarnation that registered them), not before: a timer
+/// task may only end once a termination cause exists for its actor, once a restart request has been
+/// issued to a restartable actor, or - for the one-shot kinds - after it has fired.
+pub fn timer_died_early(v: &View, vd: &mut Verdict, prop: &str) {
+    for e in v.hist {
+        let EvKind::TimerReg { actor, timer, kind, .. } = &e.kind else { continue };
+        let (a, id) = (*actor, *timer);
+        let Some(end) = v.hist.iter().find(|x| x.stamp > e.stamp && matches!(&x.kind, EvKind::TaskEnd { tag: TaskTag::Timer { actor: ta, timer: tt }, .. } if *ta == a && *tt == id)) else { continue };
+        let mut limit = v.alive_until(a);
+        if v.rt[a].strategy != RStrat::NonRestartable {
+            for o in v.client_ops().filter(|o| o.actor == Some(a) && o.what == OpWhat::Restart) {
+                limit = limit.min(o.begin);
+            }
+            for x in v.hist {
+                if let EvKind::CtxOp { actor: ca, op: CtxOpKind::Restart, .. } = &x.kind {
+                    if *ca == a {
+                        limit = limit.min(x.stamp);
+                    }
+                }
+            }
+        }
+        if end.stamp >= limit {
+            continue;
+        }
+        let fired = v.hist.iter().any(|x| {
+            x.stamp < end.stamp
+                && match &x.kind {
+                    EvKind::TickCreated { timer: t, .. } | EvKind::DelayedRan { timer: t, .. } => *t == id,
+                    _ => false,
+                }
+        });
+        let repeating = matches!(kind, TimerKind::Interval | TimerKind::IntervalWith);
+        if repeating || !fired {
+            vd.fail(
+                format!("{prop}/timer_died_early/{kind:?}"),
+                format!("actor {a} ({:?}): the task of timer {id} ({kind:?}) registered at {} ended at {} ({:?}) although nothing had asked the actor to terminate or restart before {limit}", v.rt[a].strategy, e.stamp, end.stamp, end.kind),
+            );
+        }
+    }
+}
+
+fn time_of(v: &View, stamp: u64) -> u64 {
+    v.hist.iter().find(|e| e.stamp >= stamp).map(|e| e.time).unwrap_or_else(|| v.hist.last().map(|e| e.time).unwrap_or(0))
+}
+
+/// A live repeating timer never lets its actor sit idle for more than one period: an idle actor has
+/// an empty mailbox, the next tick is produced at most one period later and is taken at once.  Looks at
+/// the time between the registration and the first possible end of the actor (or the next restart
+/// request); busy = inside a handler (until its exit, or until the configured timeout abandons it) or a
+/// lifecycle callback.
+fn went_silent(v: &View, vd: &mut Verdict, id: usize, t: &T) {
+    let a = t.actor;
+    let mut limit = v.alive_until(a).min(v.phase(Phase::Teardown));
+    for o in v.client_ops().filter(|o| o.actor == Some(a) && o.what == OpWhat::Restart && o.begin > t.reg_stamp) {
+        limit = limit.min(o.begin);
+    }
+    for x in v.hist {
+        if let EvKind::CtxOp { actor: ca, op: CtxOpKind::Restart, .. } = &x.kind {
+            if *ca == a && x.stamp > t.reg_stamp {
+                limit = limit.min(x.stamp);
+            }
+        }
+    }
+    if limit == u64::MAX || limit <= t.reg_stamp {
+        return;
+    }
+    let limit_time = time_of(v, limit);
+    let timeout = v.rt[a].timeout.map(|(x, _)| x as u64);
+    let mut busy: Vec<(u64, u64)> = vec![];
+    for i in v.invs.iter().filter(|i| i.actor == a) {
+        let end = match (i.exit, timeout) {
+            (Some(_), _) => i.exit_time,
+            (None, Some(x)) => i.enter_time + x,
+            (None, None) => u64::MAX,
+        };
+        busy.push((i.enter_time, end));
+    }
+    for c in v.cbs.iter().filter(|c| c.actor == a) {
+        busy.push((c.enter_time, c.exit.map(|s| time_of(v, s)).unwrap_or(u64::MAX)));
+    }
+    busy.sort();
+    let mut idle_from = t.reg_time;
+    for (b0, b1) in busy {
+        if b1 < idle_from {
+            continue;
+        }
+        if b0 > idle_from {
+            let g1 = b0.min(limit_time);
+            if g1 > idle_from + t.ticks {
+                vd.fail(
+                    format!("C10/timer_went_silent/{:?}", t.kind),
+                    format!("actor {a}: timer {id} ({:?}, period {}) registered at t={}: the actor was idle from t={idle_from} to t={g1} without a tick being delivered (nothing could end or restart it before t={limit_time})", t.kind, t.ticks, t.reg_time),
+                );
+                return;
+            }
+        }
+        idle_from = idle_from.max(b1);
+        if idle_from >= limit_time {
+            return;
+        }
+    }
+    if limit_time > idle_from.saturating_add(t.ticks) {
+        vd.fail(
+            format!("C10/timer_went_silent/{:?}", t.kind),
+            format!("actor {a}: timer {id} ({:?}, period {}) registered at t={}: the actor was idle from t={idle_from} to t={limit_time} without a tick being delivered", t.kind, t.ticks, t.reg_time),
+        );
+    }
 }
